@@ -111,7 +111,8 @@ int creds_build(CredSet *cs, int depth, int tlcp)
 
 	/* root */
 	if (sm2_key_generate(&k) != 1) return -1;
-	s = (CertSpec){ "SIM Root CA", 1, -1, X509_KU_KEY_CERT_SIGN | X509_KU_CRL_SIGN, nb - 1460 * 86400LL, na + 1460 * 86400LL };
+	/* the rich variant has a root whose pathLenConstraint is exactly what its chain needs (depth - 1 CAs below it) */
+	s = (CertSpec){ "SIM Root CA", 1, g_build_eku ? depth - 1 : -1, X509_KU_KEY_CERT_SIGN | X509_KU_CRL_SIGN, nb - 1460 * 86400LL, na + 1460 * 86400LL };
 	if (creds_issue(&s, &k, NULL, &cs->root) != 1) return -1;
 
 	/* intermediates: sub[depth-2] is issued by root, sub[0] issues the leaves */
@@ -172,6 +173,25 @@ const CredSet *creds_get_eku(int depth, int tlcp)
 		int ret = creds_build(&cache[depth][tlcp], depth, tlcp);
 		g_build_eku = 0;
 		if (ret != 1) die("creds_build (eku) failed depth=%d tlcp=%d", depth, tlcp);
+		have[depth][tlcp] = 1;
+	}
+	return &cache[depth][tlcp];
+}
+
+/* The client's leaf is a few hundred bytes larger than the server's whole chain (and the other way round at depth 1
+ * never happens with equal leaves): lengths of one side's chain must never be used for the other's. */
+const CredSet *creds_get_bigclient(int depth, int tlcp)
+{
+	static CredSet cache[4][2];
+	static int have[4][2];
+	if (depth < 1 || depth > 3) die("bad depth %d", depth);
+	if (!have[depth][tlcp]) {
+		if (t_task >= 0) die("creds_get_bigclient first used inside a task");
+		sim_ambient_entropy_seed(0xC0FFED00 + (uint64_t)depth * 2 + (uint64_t)tlcp);
+		g_build_pad_cli = 120 + 480 * depth;
+		int ret = creds_build(&cache[depth][tlcp], depth, tlcp);
+		g_build_pad_cli = 0;
+		if (ret != 1) die("creds_build (bigclient) failed");
 		have[depth][tlcp] = 1;
 	}
 	return &cache[depth][tlcp];
